@@ -8,6 +8,20 @@ var realTerminal = []string{"gmrtd iso7816.NfcSession", "gmrtd iso7816.SecureMes
 
 func RegisterAll() {
 	core.Register(&core.Check{
+		Property: "C11",
+		Level:    "fault_enumeration",
+		Rule: "per chip configuration (12: BAC / PACE-GM 3DES,AES / PACE-CAM / +AA RSA,ECDSA / +CA legacy,AT / extended length / ladder paths / untrusted issuer) the fault-free read fixes E exchanges; every exchange index k in [0,E) x every link fault variant (lost response/command, truncations, bit garbles, oversize, 9 bare status words, replays, swap, SM data-object drop/dup/reorder/re-encode, SW mismatch, chip power cycle, dead link) runs as its own simulation (quick: 3 configurations rotating with the seed, thorough: all), then seeded 2-5 fault plans biased to protocol transitions; " +
+			"distinct_nontrivial counts distinct (configuration, exchange index, fault variant, outcome) tuples whose fault actually fired",
+		Engines:        []core.Engine{E2EFaultEngine{}},
+		Assumptions:    []string{"files read without secure messaging (EF.CardAccess) cannot be protected against an on-path modifier by any terminal: there the oracle is 'identical, or not DataTrusted when DG14 is present' (DESIGN.md 6.11, 10)", "no liveness is claimed after a fault: the library has no recovery path"},
+		RealComponents: []string{"gmrtd reader and everything below it (unmodified)"},
+		SimComponents:  []string{"SimChip", "SimPKI world", "faulty link with per-exchange fault plan"},
+		RequiredProbes: []string{"read_completed_despite_fault", "clear_file_modified"},
+		CrashOwner:     true,
+		Exhaustive:     func(tier string) bool { return false },
+		QuickBudget:    120, ThoroughBudget: 2400,
+	})
+	core.Register(&core.Check{
 		Property: "C08",
 		Level:    "exploration",
 		Rule: "complete reader.ReadDocument against a generated personalisation: access control {BAC only, PACE+BAC, PACE only, PACE-CAM} x curve (11) x suite (4) stratified by run index; password route mrz|mrzi|dg1|can; DG subset and sizes around chunk/length boundaries (incl. files > 32 KiB); chip response policies (size caps, short answers, Le caps, extended length on/off, EOF warnings, SELECT MF forms, access check at SELECT or READ); terminal maxLe 64..65536, SkipPace, SkipImages, AA key type/size, CA arrangement (legacy KAT, AT, key ids, two keys), trusted vs untrusted issuer, issuer profile; " +
